@@ -241,3 +241,75 @@ where
 pub fn n_threads() -> usize {
     std::thread::available_parallelism().map(|n| n.get()).unwrap_or(4)
 }
+
+/// Like `par_map`, but a case that runs longer than `limit` is reported as hung instead of being
+/// waited for (its thread is abandoned; the caller should end the process with `exit`).
+/// Returns (results of finished cases, indices of hung cases).
+pub fn par_map_watchdog<I, S, O>(
+    items: Vec<I>, threads: usize, limit: std::time::Duration,
+    init: impl Fn() -> S + Send + Sync + 'static, f: impl Fn(&mut S, &I) -> O + Send + Sync + 'static,
+) -> (Vec<(usize, O)>, Vec<usize>)
+where
+    I: Send + Sync + 'static,
+    O: Send + 'static,
+    S: 'static,
+{
+    use std::sync::{Arc, Mutex};
+    let n = items.len();
+    let threads = threads.max(1).min(n.max(1));
+    let items = Arc::new(items);
+    let next = Arc::new(Mutex::new(0usize));
+    let results: Arc<Mutex<Vec<(usize, O)>>> = Arc::new(Mutex::new(Vec::with_capacity(n)));
+    let current: Arc<Mutex<Vec<Option<(std::time::Instant, usize)>>>> = Arc::new(Mutex::new(vec![None; threads]));
+    let done: Arc<Mutex<Vec<bool>>> = Arc::new(Mutex::new(vec![false; threads]));
+    let init = Arc::new(init);
+    let f = Arc::new(f);
+    for t in 0..threads {
+        let (items, next, results, current, done, init, f) =
+            (items.clone(), next.clone(), results.clone(), current.clone(), done.clone(), init.clone(), f.clone());
+        std::thread::Builder::new()
+            .stack_size(512 << 20)
+            .spawn(move || {
+                let mut state = init();
+                loop {
+                    let i = {
+                        let mut g = next.lock().unwrap();
+                        let i = *g;
+                        *g += 1;
+                        i
+                    };
+                    if i >= items.len() {
+                        break;
+                    }
+                    current.lock().unwrap()[t] = Some((std::time::Instant::now(), i));
+                    let out = f(&mut state, &items[i]);
+                    current.lock().unwrap()[t] = None;
+                    results.lock().unwrap().push((i, out));
+                }
+                done.lock().unwrap()[t] = true;
+            })
+            .expect("spawn worker");
+    }
+    let mut hung: Vec<usize> = Vec::new();
+    loop {
+        std::thread::sleep(std::time::Duration::from_millis(100));
+        let cur = current.lock().unwrap().clone();
+        let dn = done.lock().unwrap().clone();
+        let mut all = true;
+        hung.clear();
+        for t in 0..threads {
+            if dn[t] {
+                continue;
+            }
+            match cur[t] {
+                | Some((since, i)) if since.elapsed() > limit => hung.push(i),
+                | _ => all = false,
+            }
+        }
+        if all {
+            break;
+        }
+    }
+    let res = std::mem::take(&mut *results.lock().unwrap());
+    (res, hung)
+}
